@@ -336,21 +336,35 @@ def materialise_and_judge(scs, tags="", l2=False):
         # L2: validate the recorded machine-step events against PegVM
         tdir = os.path.join(work, "l2")
         os.makedirs(tdir)
-        t = run_tlc("TraceVM", "TraceVM.cfg", env=dict(JUDGE_IN=joined, JUDGE_OUT=tdir), timeout=3600, check=False)
-        if t["rc"] != 0 or "No error has been found" not in t["out"]:
-            raise Infra("TraceVM failed (a PegVM invariant or the trace specification itself):\n" + t["out"][-3000:])
+        # the records are validated in chunks by TLC processes of their own (one huge constant makes TLC crawl)
+        with open(joined) as fh:
+            lines = [ln for ln in fh if ln.strip()]
+        per = 8
+        parts = []
+        for k in range(0, len(lines), per):
+            pth = os.path.join(work, f"l2in_{k // per}.ndjson")
+            with open(pth, "w") as fh:
+                fh.writelines(lines[k:k + per])
+            parts.append(pth)
+        import concurrent.futures
+        t0l2 = time.time()
+        with concurrent.futures.ThreadPoolExecutor(max_workers=max(1, NCPU // 4)) as ex:
+            outs = list(ex.map(lambda pth: run_tlc("TraceVM", "TraceVM.cfg", env=dict(JUDGE_IN=pth, JUDGE_OUT=tdir), workers=4, timeout=3600, check=False), parts))
+        for o in outs:
+            if o["rc"] != 0 or "No error has been found" not in o["out"]:
+                raise Infra("TraceVM failed (a PegVM invariant or the trace specification itself):\n" + o["out"][-3000:])
+        t = dict(states=sum(o["states"] for o in outs), distinct=sum(o["distinct"] for o in outs), wall=time.time() - t0l2)
         for p in sorted(glob.glob(os.path.join(tdir, "l2_*.ndjson"))):
             for x in read_ndjson(p):
                 x["prop"] = "L2"
                 x["kind"] = "mis"
                 mis.append(x)
-        m0 = re.search(r"(\d+) distinct state", t["out"])
         ntr = nev = nhits = nhit1 = 0
         with open(joined) as fh:
             for line in fh:
                 rec = json.loads(line)
                 for u in rec["units"]:
-                    if u["opt"] in ("", "i"):
+                    if u["opt"] in ("", "i", "s", "is"):
                         ntr += sum(1 for r in u["runs"] if "evs" in r and r["pn"] == "")
                         for r in u["runs"]:
                             for e in r.get("evs", []):
@@ -391,9 +405,10 @@ def corpus_pipeline(family, n, sd, tags="", l2=False):
             with open(path) as fh:
                 return json.load(fh)
         scs, ginfo = generate(family, n, sd, evs=l2, conc=4 if tags == "racebatch" else 0)
-        if l2:      # event traces are validated for the default option set and for -inline
+        if l2:      # event traces are validated for the default option set and for -inline; in the switch family also for -switch
+            keep = ["", "i", "s", "is"] if family == "switch" else ["", "i"]
             for s in scs:
-                s["optsets"] = ["", "i"] if "i" in s["optsets"] else [""]
+                s["optsets"] = [o for o in keep if o in s["optsets"]] or [""]
         mis, stats, jinfo = materialise_and_judge(scs, tags, l2=l2)
         by_id = {s["id"]: s for s in scs}
         for m in mis:
@@ -511,10 +526,43 @@ def model_check(module, cfg, timeout=1800, expect_ok=True):
         return res
 
 
-def l0_pegvm(family, n, sd, maxin=60):
+def apalache_inductive(module, cinit="ConstInit", init="Init", indinit="IndInit", inv="IndInv", step_invs=()):
+    """Unbounded safety with Apalache: base case (Init => inv at length 0) and inductive step (from any state
+    satisfying inv, one step preserves inv; optional action invariants hold on that step).  Cached by spec content.
+    A failure is a specification error (exit 2), never a verdict about the code."""
+    key = os.path.join(CACHE, f"apalache_{module}_{harness_hash()}.json")
+    with Lock("apalache-" + module):
+        if os.path.exists(key):
+            with open(key) as fh:
+                return json.load(fh)
+        d = scratch("verif-apalache-")
+        for f in os.listdir(SPEC):
+            if f.endswith(".tla"):
+                shutil.copy(os.path.join(SPEC, f), d)
+        runs, t0 = [], time.time()
+        for name, args in [("base", [f"--init={init}", f"--inv={inv}", "--length=0"]),
+                           ("step", [f"--init={indinit}", f"--inv={inv}", "--length=1"])] + \
+                          [("step:" + a, [f"--init={indinit}", f"--inv={a}", "--length=1"]) for a in step_invs]:
+            try:
+                r = subprocess.run(["apalache-mc", "check", f"--cinit={cinit}"] + args + [module + ".tla"], cwd=d, capture_output=True, text=True, timeout=1200)
+            except (subprocess.TimeoutExpired, FileNotFoundError) as e:
+                raise Infra(f"apalache-mc could not run on {module} ({name}): {e}")
+            ok = r.returncode == 0 and "EXITCODE: OK" in r.stdout
+            runs.append(dict(obligation=name, ok=ok))
+            if not ok:
+                raise Infra(f"Apalache obligation '{name}' of {module} failed (specification error, not a verdict about the code):\n" + (r.stdout + r.stderr)[-2500:])
+        res = dict(module=module, tool="apalache-mc", invariant=inv, obligations=runs, wall=round(time.time() - t0, 1))
+        shutil.rmtree(d, ignore_errors=True)
+        os.makedirs(os.path.dirname(key), exist_ok=True)
+        with open(key, "w") as fh:
+            json.dump(res, fh)
+        return res
+
+
+def l0_pegvm(family, n, sd, maxin=60, switch=False):
     """L0: exhaustive TLC exploration of PegVM over a generated scenario file (no code involved).
     Returns states/transitions and the per-action coverage counts."""
-    key = os.path.join(CACHE, f"l0vm_{family}_{n}_{sd}_{maxin}_{harness_hash()}.json")
+    key = os.path.join(CACHE, f"l0vm_{family}_{n}_{sd}_{maxin}_{'sw_' if switch else ''}{harness_hash()}.json")
     with Lock("l0vm-" + family):
         if os.path.exists(key):
             with open(key) as fh:
@@ -525,7 +573,7 @@ def l0_pegvm(family, n, sd, maxin=60):
         with open(scen, "w") as fh:
             for sc in scs:
                 fh.write(json.dumps(sc) + "\n")
-        r = run_tlc("MCPegVM", "MC_VM.cfg", env=dict(MC_SCEN=scen, MC_MAXIN=maxin), extra=["-coverage", "1"], timeout=3600, check=False)
+        r = run_tlc("MCPegVM", "MC_VM.cfg", env=dict(MC_SCEN=scen, MC_MAXIN=maxin, MC_SWITCH=1 if switch else 0), extra=["-coverage", "1"], timeout=3600, check=False)
         ok = r["rc"] == 0 and "No error has been found" in r["out"]
         if not ok:
             raise Infra("L0 PegVM model check failed (specification-level, not a verdict about the code):\n" + r["out"][-3000:])
@@ -539,7 +587,7 @@ def l0_pegvm(family, n, sd, maxin=60):
         if not acts:
             raise Infra("could not read per-action coverage from TLC output")
         res = dict(family=family, scenarios=len(scs), states=r["distinct"], transitions=r["states"], wall=round(r["wall"], 1),
-                   actions=acts, actions_never_taken=sorted(a for a, c in acts.items() if c == 0))
+                   actions=acts, actions_never_taken=sorted(a for a, c in acts.items() if c == 0 and (switch or not a.startswith(("Switch", "Skip")))))
         shutil.rmtree(work, ignore_errors=True)
         os.makedirs(os.path.dirname(key), exist_ok=True)
         with open(key, "w") as fh:
